@@ -85,6 +85,10 @@ def setup(common=None):
         ns_regs=[v.registry for _, v in ns_units],
         nq_units=[v.units for _, v in ns_quants],
         nq_regs=[v.units.registry for _, v in ns_quants],
+        nq_vals=[np.array(v.d, copy=True) for _, v in ns_quants],
+        # the exported quantity handed to registry calls as an OBJECT (value class "ns"): a length that is not in MKS base units
+        ns_arg="planck_length_cgs",
+        ns_c=float(unyt.planck_length_cgs.in_base("mks").value),
         nusys=0,
     )
     # every module-level mutable container of the library (also ones a changed library adds, e.g. a memo of
@@ -159,10 +163,32 @@ def _clear_lru():
             f.cache_clear()
 
 
+NS_SCALE = 8  # MultiReg!NsScale: stand-in for the MKS value of the exported quantity _U["ns_arg"]
+
+
+def _proj_ns(x):
+    """x = g * C**e for a small rational g and e in {1, 2, -1}, C the MKS value of the exported quantity used as
+    argument (1.6e-35: no other number of the alphabet is near a small multiple of its powers) -> g * NsScale**e."""
+    C = _U.get("ns_c")
+    if not C or x == 0 or x != x or x in (float("inf"), float("-inf")):
+        return None
+    for e in (1, 2, -1):
+        y = x / C**e
+        if not 1e-7 < abs(y) < 2e9:
+            continue
+        g = Fraction(y).limit_denominator(10**6)
+        if g != 0 and abs(float(g) / y - 1) < 1e-9:
+            g = g * Fraction(NS_SCALE) ** e
+            if abs(g.numerator) < 2**31 and g.denominator < 2**31:
+                return g
+    return None
+
+
 def _rat(x):
     f = Fraction(float(x))
     if abs(f.numerator) >= 2**31 or f.denominator >= 2**31:
-        f = f.limit_denominator(10**6)
+        g = _proj_ns(float(x))
+        f = g if g is not None else f.limit_denominator(10**6)
     return [f.numerator, f.denominator]
 
 
@@ -174,7 +200,11 @@ def _rows(reg):
             out.append([0, False])
         else:
             sc = float(r[0])
-            out.append([int(sc) if sc == int(sc) and 0 < abs(sc) < 2**31 else -1, bool(r[4])])
+            if sc == int(sc) and 0 < abs(sc) < 2**31:
+                out.append([int(sc), bool(r[4])])
+            else:
+                g = _proj_ns(sc)
+                out.append([int(g) if g is not None and g.denominator == 1 else -1, bool(r[4])])
     return out
 
 
@@ -381,8 +411,17 @@ def step(R, e):
             reg.add(e["sym"], float(e["scale"]), L, prefixable=bool(e["pfx"]))
             obs = {"k": "ok"}
         elif op == "modify":
-            reg.modify(e["sym"], float(e["scale"]))
-            obs = {"k": "ok"}
+            via = e.get("via", "num")
+            if via == "num":
+                reg.modify(e["sym"], float(e["scale"]))
+                obs = {"k": "ok"}
+            else:
+                # the value is a quantity OBJECT somebody else holds: the caller's own (default registry, km) or the
+                # one exported by the namespace; it must be the same object with the same number and unit afterwards
+                q = U["uq"](float(e["scale"]) / 1000.0, "km") if via == "qty" else getattr(U["unyt"], U["ns_arg"])
+                held = (float(q.d), q.units, q.units.registry)
+                reg.modify(e["sym"], q)
+                obs = {"k": "ok"} if (float(q.d), q.units, q.units.registry) == held and q.units is held[1] else {"k": "arg-changed"}
         elif op == "remove":
             reg.remove(e["sym"])
             obs = {"k": "ok"}
@@ -392,11 +431,14 @@ def step(R, e):
             u = U["Unit"](e["str"], registry=reg)
             obs = {"k": "unit", "s": _rat(u.base_value)}
         elif op == "define":
+            ns = e.get("via", "num") == "ns"
+            q = getattr(U["unyt"], U["ns_arg"]) if ns else (float(e["scale"]), "m")
+            held = (float(q.d), q.units, q.units.registry) if ns else None
             if e["r"] == 0:
-                U["define_unit"](e["sym"], (float(e["scale"]), "m"), prefixable=bool(e["pfx"]))
+                U["define_unit"](e["sym"], q, prefixable=bool(e["pfx"]))
             else:
-                U["define_unit"](e["sym"], (float(e["scale"]), "m"), prefixable=bool(e["pfx"]), registry=reg)
-            obs = {"k": "ok"}
+                U["define_unit"](e["sym"], q, prefixable=bool(e["pfx"]), registry=reg)
+            obs = {"k": "ok"} if not ns or ((float(q.d), q.units, q.units.registry) == held and q.units is held[1]) else {"k": "arg-changed"}
         elif op == "new":
             if e["defs"]:
                 new = U["UnitRegistry"](unit_system=e["usys"]) if e["usys"] != "mks" else U["UnitRegistry"]()
@@ -443,7 +485,8 @@ def step(R, e):
             obs = {"k": "res", "r": known if known >= 0 else (e["r"] if rr.lut is reg.lut else -1)}
         elif op == "usys":
             U["nusys"] += 1
-            U["UnitSystem"]("c13_us_%d" % U["nusys"], e["sym"], "kg", "s", registry=reg)
+            # obj: the length unit as the Unit OBJECT exported by the namespace instead of its name
+            U["UnitSystem"]("c13_us_%d" % U["nusys"], getattr(U["unyt"], e["sym"]) if e.get("obj") else e["sym"], "kg", "s", registry=reg)
             obs = {"k": "ok"}
         elif op == "addsymbols":
             U["add_symbols"]({}, reg)
@@ -486,6 +529,10 @@ def step(R, e):
         obs = {"k": "raise"}
         exc = type(ex).__name__
     out = dict(e)
+    if op in ("modify", "define"):
+        out.setdefault("via", "num")
+    if op == "usys":
+        out.setdefault("obj", False)
     out["obs"] = obs
     out["exc"] = exc
     out.update(_snapshot_all(R))
@@ -515,11 +562,14 @@ def _restore_process():
     for (_, v), r in zip(U["ns_units"], U["ns_regs"]):
         if v.registry is not r:
             v.registry = r
-    for (_, v), un, r in zip(U["ns_quants"], U["nq_units"], U["nq_regs"]):
+    for (_, v), un, r, val in zip(U["ns_quants"], U["nq_units"], U["nq_regs"], U["nq_vals"]):
         if v.units is not un:
             v.units = un
         if v.units.registry is not r:
             v.units.registry = r
+        d = v.view(U["np"].ndarray)
+        if not (d == val or val != val):  # a call that rescaled an exported quantity in place
+            d[...] = val
     for k, u in D._unit_object_cache.items():
         if u.registry is not U["D_cache_regs"][k]:
             u.registry = U["D_cache_regs"][k]
